@@ -278,3 +278,4 @@ package propertyf
 //@   site ).Write#1 assert [C03] $2 == 0
 //@   site ).Write#2 assert [C03] $2 == 0
 //@   sites ).Write = 3
+//@   site ).Write#1 assert [C03] $1 == s32(len(st.VInfo))
